@@ -150,6 +150,46 @@ static std::string json_escape(const std::string &s) {
   return o;
 }
 
+struct ChildOut { int kind = 0; /* 0 ok, 1 violation, 2 skip, 3 crash */ std::string cls; Scn scn; int status = 0; };
+
+static ChildOut run_child(const Scn &s) {
+  ChildOut o;
+  int pfd[2];
+  if (pipe(pfd) != 0) { o.kind = 3; return o; }
+  fflush(rep);
+  pid_t pid = fork();
+  if (pid == 0) {
+    close(pfd[0]);
+    g_child_fd = pfd[1];
+    const PropDef *p = find_prop(s.prop);
+    Verdict v = run_scn(p, s);
+    if (v.violation) { emit_violation(s, v.cls, v.sig, v.detail, nullptr, 0); _exit(1); }
+    if (v.skipped) { std::string m = "S\n" + v.skip_reason + "\n"; (void)!write(pfd[1], m.data(), m.size()); _exit(3); }
+    // also hand back the decisions of a clean run
+    _exit(0);
+  }
+  close(pfd[1]);
+  std::string buf;
+  char tmp[65536];
+  ssize_t n;
+  while ((n = read(pfd[0], tmp, sizeof tmp)) > 0) buf.append(tmp, n);
+  close(pfd[0]);
+  int st = 0;
+  waitpid(pid, &st, 0);
+  o.status = st;
+  if (buf.size() >= 2 && buf[0] == 'V') {
+    o.kind = 1;
+    size_t a = buf.find('\n', 2);
+    o.cls = buf.substr(2, a - 2);
+    scn_parse(buf.substr(a + 1), o.scn);
+  } else if (buf.size() >= 2 && buf[0] == 'S') o.kind = 2;
+  else if (WIFSIGNALED(st) || (WIFEXITED(st) && WEXITSTATUS(st) != 0 && WEXITSTATUS(st) != 3)) {
+    o.kind = 3;
+    o.cls = WIFSIGNALED(st) ? "crash-signal-" + std::to_string(WTERMSIG(st)) : "crash-exit-" + std::to_string(WEXITSTATUS(st));
+  }
+  return o;
+}
+
 static int cmd_batch(int argc, char **argv) {
   if (argc < 7) { fprintf(stderr, "usage: batch <prop> <tier> <seed> <worker> <nworkers> [--wall s] [--start idx] [--maxviol n] [--outdir d] [--limit n] [--trace-lines]\n"); return 2; }
   std::string prop = argv[2], tier = argv[3];
@@ -157,7 +197,7 @@ static int cmd_batch(int argc, char **argv) {
   long w = atol(argv[5]), N = atol(argv[6]);
   double wall = 1e9;
   long start = -1, maxviol = 3, limit = -1;
-  bool trace_lines = false;
+  bool trace_lines = false, fresh_only = false;
   for (int i = 7; i < argc; i++) {
     std::string a = argv[i];
     if (a == "--wall" && i + 1 < argc) wall = atof(argv[++i]);
@@ -166,6 +206,7 @@ static int cmd_batch(int argc, char **argv) {
     else if (a == "--outdir" && i + 1 < argc) g_outdir = argv[++i];
     else if (a == "--limit" && i + 1 < argc) limit = atol(argv[++i]);
     else if (a == "--trace-lines") trace_lines = true;
+    else if (a == "--fresh-only") fresh_only = true;   // this worker never executes a scenario itself: it only forks pristine children
   }
   const PropDef *p = find_prop(prop);
   if (!p) { fprintf(stderr, "unknown property %s\n", prop.c_str()); return 2; }
@@ -178,12 +219,29 @@ static int cmd_batch(int argc, char **argv) {
   for (long idx = w; idx < plan; idx += N) {
     if (idx <= start) continue;
     if (now_s() - t0 > wall) { wall_stop = true; break; }
+    Scn s;
+    p->gen(tier, seed, idx, s);
+    // scenarios marked "fresh" need a process that has executed nothing before: they are left to the --fresh-only
+    // workers, which fork a child per scenario and never run anything themselves
+    if ((s.geti("fresh") != 0) != fresh_only) continue;
     fprintf(rep, "S %ld\n", idx);
     fflush(rep);
     g_cur_idx = idx;
-    Scn s;
-    p->gen(tier, seed, idx, s);
-    Verdict v = run_scn(p, s);
+    Verdict v;
+    if (s.geti("fresh")) {
+      // the scenario's operations are the first ones of a pristine process (lazily initialised process-wide state is
+      // initialised under the explored schedule, not by some earlier scenario of this worker)
+      ChildOut o = run_child(s);
+      g_stats.add("probe.scenarios_in_fresh_process", 1);
+      if (o.kind == 1) {
+        v.violation = true; v.cls = o.cls; v.detail = "(scenario executed in a forked, pristine process; see the replay file)";
+        if (!o.scn.prop.empty()) g_ctx.recorded = o.scn.dec;
+      } else if (o.kind == 3) {
+        v.violation = true; v.cls = o.cls; v.detail = "the forked, pristine process that executed the scenario died";
+      } else if (o.kind == 2) { v.skipped = true; v.skip_reason = "skipped-in-fresh-process"; }
+      else { v.nontrivial = true; v.case_hash = Rng::mix((uint64_t)idx, 0xF4E5); }
+    } else
+      v = run_scn(p, s);
     done++;
     last = idx;
     g_stats.add("runs", 1);
@@ -242,46 +300,6 @@ static int cmd_replay(int argc, char **argv) {
 }
 
 // ---------------------------------------------------------------- minimisation (fork per candidate)
-
-struct ChildOut { int kind = 0; /* 0 ok, 1 violation, 2 skip, 3 crash */ std::string cls; Scn scn; int status = 0; };
-
-static ChildOut run_child(const Scn &s) {
-  ChildOut o;
-  int pfd[2];
-  if (pipe(pfd) != 0) { o.kind = 3; return o; }
-  fflush(rep);
-  pid_t pid = fork();
-  if (pid == 0) {
-    close(pfd[0]);
-    g_child_fd = pfd[1];
-    const PropDef *p = find_prop(s.prop);
-    Verdict v = run_scn(p, s);
-    if (v.violation) { emit_violation(s, v.cls, v.sig, v.detail, nullptr, 0); _exit(1); }
-    if (v.skipped) { std::string m = "S\n" + v.skip_reason + "\n"; (void)!write(pfd[1], m.data(), m.size()); _exit(3); }
-    // also hand back the decisions of a clean run
-    _exit(0);
-  }
-  close(pfd[1]);
-  std::string buf;
-  char tmp[65536];
-  ssize_t n;
-  while ((n = read(pfd[0], tmp, sizeof tmp)) > 0) buf.append(tmp, n);
-  close(pfd[0]);
-  int st = 0;
-  waitpid(pid, &st, 0);
-  o.status = st;
-  if (buf.size() >= 2 && buf[0] == 'V') {
-    o.kind = 1;
-    size_t a = buf.find('\n', 2);
-    o.cls = buf.substr(2, a - 2);
-    scn_parse(buf.substr(a + 1), o.scn);
-  } else if (buf.size() >= 2 && buf[0] == 'S') o.kind = 2;
-  else if (WIFSIGNALED(st) || (WIFEXITED(st) && WEXITSTATUS(st) != 0 && WEXITSTATUS(st) != 3)) {
-    o.kind = 3;
-    o.cls = WIFSIGNALED(st) ? "crash-signal-" + std::to_string(WTERMSIG(st)) : "crash-exit-" + std::to_string(WEXITSTATUS(st));
-  }
-  return o;
-}
 
 static long g_min_runs = 0;
 static bool still_fails(const Scn &cand, const std::string &cls, Scn *with_dec = nullptr) {
